@@ -23,8 +23,20 @@ use std::io::Error;
 use std::mem::MaybeUninit;
 use std::os::unix::io::AsRawFd;
 use std::ptr;
+#[cfg(not(sighook_verif))]
 use std::sync::atomic::{AtomicBool, Ordering};
+#[cfg(not(sighook_verif))]
 use std::sync::{Arc, Mutex};
+#[cfg(sighook_verif)]
+use libc::vshim::atomic::{AtomicBool, Ordering};
+#[cfg(sighook_verif)]
+use libc::vshim::Mutex;
+#[cfg(sighook_verif)]
+use std::sync::Arc;
+
+#[cfg(sighook_verif)]
+#[path = "/verif/shim/backend_api.rs"]
+pub mod verif_api;
 
 use libc::{self, c_int};
 
@@ -33,7 +45,12 @@ use crate::low_level::pipe::{self, WakeMethod};
 use crate::SigId;
 
 /// Maximal signal number we support.
+#[cfg(not(sighook_verif))]
 const MAX_SIGNUM: usize = 128;
+// Verification builds use an 8-entry table (loop bounds, shared-word budget); the
+// boundary behaviour is then exercised at 8 instead of 128.
+#[cfg(sighook_verif)]
+const MAX_SIGNUM: usize = 8;
 
 trait SelfPipeWrite: Debug + Send + Sync {
     fn wake_readers(&self);
